@@ -1,5 +1,7 @@
 \* Strain.tla, machine HSpec, kind "map" only, thorough tier: EVERY history of 4 operations on a TensorMap
-\* (4 reads + 3 ways x 2 other versions per step: 10^4 histories), two phase dictionaries; exhaustive, 22222 states
+\* (per step 4 reads + 3 ways x 2 other versions + an explicit dzero_unitcell map handed over in 2 ways while no
+\* strain map is cached; no reads of the other computed maps: MTOUCHES = {}), two phase dictionaries, with and
+\* without an explicit dzero_unitcell map at construction; exhaustive, 56592 states
 SPECIFICATION HSpec
 CONSTANTS
   REFS <- RefsQ
@@ -13,6 +15,8 @@ CONSTANTS
   HSTRETCHES <- HStretchQ
   HROTS <- HRotsQ
   HU0R <- HU0RAll
+  HSCALES <- HScalesAll
+  MTOUCHES <- MTouchNone
   HLEN = 2
   PHASEDICTS <- PhaseDictsMapT
   NVER = 3
@@ -20,5 +24,6 @@ CONSTANTS
 INVARIANT MapExpCurrent
 INVARIANT MapRepairedCurrent
 INVARIANT DzeroByKey
+INVARIANT DzSourceOK
 INVARIANT HEmit
 CHECK_DEADLOCK FALSE
